@@ -90,6 +90,12 @@ func (k Keeper) handleBridgeHook(ctx sdk.Context, data []byte, hookMaxGas uint64
 func (ms MsgServer) safeDepositToken(ctx context.Context, toAddr sdk.AccAddress, coins sdk.Coins) (success bool, reason string) {
 	// if coin is zero, just create an account
 	if coins.IsZero() {
+		// a blocked address (a module account) must not be turned into a plain account:
+		// the module could never create its module account afterwards
+		if ms.bankKeeper.BlockedAddr(toAddr) {
+			return false, fmt.Sprintf("failed to create account: %s is not allowed to receive funds", toAddr)
+		}
+
 		if !ms.authKeeper.HasAccount(ctx, toAddr) {
 			newAcc := ms.authKeeper.NewAccountWithAddress(ctx, toAddr)
 			ms.authKeeper.SetAccount(ctx, newAcc)
